@@ -43,3 +43,28 @@ class Holder:
 class Unrelated:
     def __init__(self, u: int = 0):
         self.u = u
+
+
+# --- components for the link checks (C15) -----------------------------------------------------------------------------
+class LGrp:
+    def __init__(self, u: int = 1, v: int = 2, w: int = 0):
+        self.u, self.v, self.w = u, v, w
+
+
+class LSub:
+    def __init__(self, n: int = 0):
+        self.n = n
+
+
+class LSub2(LSub):
+    def __init__(self, n: int = 0, m: str = "m"):
+        super().__init__(n)
+        self.m = m
+
+
+class LSub3(LSub):
+    """lacks the linked parameter n: a link to it is documented as ignored for this class"""
+
+    def __init__(self, k: int = 5):
+        super().__init__()
+        self.k = k
